@@ -612,7 +612,8 @@ def main(argv=None):
         nrep = 0
         known_lines = {}
         first_failure = None
-        for path in sorted(glob.glob(os.path.join(VERIF_DIR, 'replays', prop, '*.json'))):
+        replay_files = [] if os.environ.get('VERIF_NO_REPLAYS') else sorted(glob.glob(os.path.join(VERIF_DIR, 'replays', prop, '*.json')))
+        for path in replay_files:
             data = json.load(open(path))
             nrep += 1
             try:
